@@ -32,3 +32,13 @@ Definition UrlValue := url_value html_escape_table punct_table entities url_esca
 Require Import GM.model.Reader GM.model.Html GM.model.TableX.
 Definition TableTransform := transform space_table.
 Definition ParseDelimiter := parse_delimiter space_table.
+
+Require Import GM.model.FootnoteX.
+Definition Footnotes := footnotes.
+
+Require Import GM.model.Blocks.
+Definition BqProcess := bq_process_total.
+
+Require Import GM.model.Refs.
+Definition RefsAdd := add_reference ToLinkReference bytes.
+Definition RefsLookup := reference ToLinkReference bytes.
